@@ -43,6 +43,36 @@ func (c16) Gen(r *Rng, tier string, emit func(string, Tok)) {
 		}
 		emit("hold-mixed-rewind", L(I(1), scenario{kind: 1, optSize: opt, fault: -1, data: data, ops: append(append(ops, 2), 3)}.tok()))
 	}
+	// thorough tier: tens of thousands of other packets (null packets) between the packets of one unit, and between a
+	// delivered packet and the end of the run (a payload kept as a view of a recycled read buffer shows only then)
+	if tier == "thorough" {
+		for _, gap := range []int{4100, 16400, 33000} {
+			m := genRefStream(r, streamOpts{PESPIDs: 1, UnitsPerPID: 2, MaxPES: 900, Tables: true})
+			data := m.bytes()
+			np := len(data) / 188
+			null := make([]byte, 188)
+			null[0], null[1], null[2], null[3] = 0x47, 0x1f, 0xff, 0x10
+			for i := 4; i < 188; i++ {
+				null[i] = 0xff
+			}
+			cut := r.Range(np/2, np-1)
+			var d []byte
+			d = append(d, data[:188*cut]...)
+			for i := 0; i < gap; i++ {
+				d = append(d, null...)
+			}
+			d = append(d, data[188*cut:]...)
+			for _, op := range []int{3, 4} {
+				emit("hold-across-long-gap", L(I(1), scenario{kind: 1, optSize: 188, fault: -1, data: d, ops: []int{op}}.tok()))
+			}
+		}
+	}
+	// PMTs whose streams carry typed DVB descriptors of every kind (country / language codes, names, item lists: the
+	// slices a parser keeps), repeated so that scratch buffers are reused while earlier tables are held
+	for k := 0; k < scale(tier, 40, 400); k++ {
+		m := genRefStream(r, streamOpts{PESPIDs: r.Range(1, 3), UnitsPerPID: r.Range(1, 3), MaxPES: 300, Tables: true, Repeats: r.Range(1, 3), TypedDescs: true})
+		emit("hold-typed-descriptors", L(I(1), scenario{kind: r.Intn(3), optSize: 188, fault: -1, chunks: []int{r.Range(1, 400)}, data: m.bytes(), ops: []int{3}}.tok()))
+	}
 	// SI tables with descriptors of every kind on their standard PIDs (NIT 0x10, SDT 0x11, EIT 0x12, TOT 0x14), several
 	// units per PID so that the scratch buffers are reused while earlier tables are held
 	for k := 0; k < scale(tier, 30, 300); k++ {
